@@ -437,6 +437,84 @@ MUTATIONS = ["rename_existing", "rename_empty", "rename_new", "drop", "duplicate
              "type_degenerate", "fn_id_odd"]
 
 
+EXT_VARIANTS = [
+[("location", "/etc/passwd"), ("offset", "0"), ("length", "10")],
+[("location", "../../../etc/shadow")],
+[("offset", "5")],
+[("location", "w.bin"), ("offset", "-7"), ("length", str(1 << 60))],
+[("location", "w.bin"), ("offset", "abc")],
+[("location", "w.bin"), ("length", "1e3")],
+[("location", "/nonexistent/dir/x"), ("checksum", "zz"), ("bogus", "1")],
+[("location", ""), ("offset", "0")],
+[("location", "sub\\w.bin"), ("offset", "0"), ("length", "4")],
+[("location", "..\\..\\w.bin")],
+[("location", "C:\\models\\w.bin"), ("length", "4")],
+[("location", "w?*.bin")], [("location", "~/w.bin")], [("location", "$HOME/%TEMP%/w.bin")],
+[("location", "a b\tc.bin")], [("location", "w.bin\x00x")], [("location", "file:///etc/passwd")],
+[("location", "//server/share/w.bin")], [("location", "w.bin/")], [("location", "./././w.bin")],
+[]]
+
+
+def degenerate_type(ty, v: int) -> None:
+    """Present-but-uninformative TypeProto number v (0..5), in place."""
+    had_shape = ty.HasField("tensor_type") and ty.tensor_type.HasField("shape")
+    if v == 0:
+        ty.Clear()
+        ty.SetInParent()
+    elif v == 1:
+        ty.Clear()
+        ty.tensor_type.SetInParent()
+    elif v == 2:
+        if not had_shape:
+            ty.Clear()
+            ty.tensor_type.shape.dim.add().dim_value = 2
+            ty.tensor_type.shape.dim.add().dim_value = 3
+        ty.tensor_type.elem_type = 0
+    elif v == 3:
+        ty.Clear()
+        ty.tensor_type.elem_type = 0
+    elif v == 4:
+        ty.Clear()
+        ty.sparse_tensor_type.elem_type = 0
+        ty.sparse_tensor_type.shape.dim.add().dim_param = "N"
+    else:
+        ty.Clear()
+        ty.sequence_type.elem_type.tensor_type.elem_type = 0
+
+
+def directed_cases() -> list:
+    """Seed-independent sweep: every external-data variant on an initializer and on a tensor attribute, every
+    degenerate type on the value_info of a non-input initializer / of a node output / on a graph input."""
+    onnx, H, TP = _onnx()
+
+    def base():
+        g = H.make_graph([H.make_node("Relu", ["x"], ["t"], name="n0"), H.make_node("Add", ["t", "w"], ["y"], name="n1")],
+                         "g", [H.make_tensor_value_info("x", TP.FLOAT, [2, 3])], [H.make_tensor_value_info("y", TP.FLOAT, [2, 3])],
+                         [H.make_tensor("w", TP.FLOAT, [2, 3], [1.0] * 6)])
+        g.node[0].attribute.append(H.make_attribute("value", H.make_tensor("c", TP.FLOAT, [1], [2.0])))
+        g.value_info.append(H.make_tensor_value_info("w", TP.FLOAT, [2, 3]))
+        g.value_info.append(H.make_tensor_value_info("t", TP.FLOAT, [2, 3]))
+        return H.make_model(g, ir_version=10, opset_imports=[H.make_opsetid("", 20)])
+    out = []
+    for i, variant in enumerate(EXT_VARIANTS):
+        for where in ("init", "attr"):
+            m = base()
+            t = m.graph.initializer[0] if where == "init" else m.graph.node[0].attribute[0].t
+            t.data_location = TP.EXTERNAL
+            t.ClearField("float_data")
+            for k, v in variant:
+                e = t.external_data.add()
+                e.key, e.value = k, v
+            out.append((m, [f"directed:ext{i}:{where}"]))
+    for v in range(6):
+        for where, ty_of in (("init-vi", lambda m: m.graph.value_info[0].type), ("output-vi", lambda m: m.graph.value_info[1].type),
+                             ("input", lambda m: m.graph.input[0].type)):
+            m = base()
+            degenerate_type(ty_of(m), v)
+            out.append((m, [f"directed:type{v}:{where}"]))
+    return out
+
+
 def mutate(m, rng, kind=None):
     """Apply one field-level mutation in place; returns its name (or None if not applicable)."""
     onnx, H, TP = _onnx()
@@ -523,22 +601,7 @@ def mutate(m, rng, kind=None):
             t = rng.choice(ts)
             t.data_location = TP.EXTERNAL
             del t.external_data[:]
-            for k, v in rng.choice([
-                    [("location", "/etc/passwd"), ("offset", "0"), ("length", "10")],
-                    [("location", "../../../etc/shadow")],
-                    [("offset", "5")],
-                    [("location", "w.bin"), ("offset", "-7"), ("length", str(1 << 60))],
-                    [("location", "w.bin"), ("offset", "abc")],
-                    [("location", "w.bin"), ("length", "1e3")],
-                    [("location", "/nonexistent/dir/x"), ("checksum", "zz"), ("bogus", "1")],
-                    [("location", ""), ("offset", "0")],
-                    [("location", "sub\\w.bin"), ("offset", "0"), ("length", "4")],
-                    [("location", "..\\..\\w.bin")],
-                    [("location", "C:\\models\\w.bin"), ("length", "4")],
-                    [("location", "w?*.bin")], [("location", "~/w.bin")], [("location", "$HOME/%TEMP%/w.bin")],
-                    [("location", "a b\tc.bin")], [("location", "w.bin\x00x")], [("location", "file:///etc/passwd")],
-                    [("location", "//server/share/w.bin")], [("location", "w.bin/")], [("location", "./././w.bin")],
-                    []]):
+            for k, v in rng.choice(EXT_VARIANTS):
                 e = t.external_data.add()
                 e.key, e.value = k, v
         elif kind == "bad_utf8":
@@ -585,52 +648,7 @@ def mutate(m, rng, kind=None):
                 if not tys:
                     return None
                 ty = rng.choice(tys)
-            v = rng.randrange(6)
-            had_shape = ty.HasField("tensor_type") and ty.tensor_type.HasField("shape")
-            if v == 0:
-                ty.Clear()
-                ty.SetInParent()
-            elif v == 1:
-                ty.Clear()
-                ty.tensor_type.SetInParent()
-            elif v == 2:
-                if not had_shape:
-                    ty.Clear()
-                    ty.tensor_type.shape.dim.add().dim_value = 2
-                    ty.tensor_type.shape.dim.add().dim_value = 3
-                ty.tensor_type.elem_type = 0
-            elif v == 3:
-                ty.Clear()
-                ty.tensor_type.elem_type = 0
-            elif v == 4:
-                ty.Clear()
-                ty.sparse_tensor_type.elem_type = 0
-                ty.sparse_tensor_type.shape.dim.add().dim_param = "N"
-            else:
-                ty.Clear()
-                ty.sequence_type.elem_type.tensor_type.elem_type = 0
-        elif kind == "fn_id_odd":
-            # function identifiers the IR<10 "domain::function/value" naming scheme cannot carry: an overload, a
-            # domain / name containing the separators; the function gets typed values so that the scheme is used
-            if not len(m.functions):
-                return None
-            f = rng.choice(m.functions)
-            v = rng.randrange(5)
-            if v == 0:
-                f.overload = "ov"
-            elif v == 1:
-                f.domain = "custom::dom"
-            elif v == 2:
-                f.domain = "cust/dom"
-            elif v == 3:
-                f.name = f.name + "/x"
-            else:
-                f.name = f.name + "::x"
-            typed = [x for x in list(f.input) + [o for n in f.node for o in n.output] if x]
-            if typed and not len(f.value_info):
-                f.value_info.append(H.make_tensor_value_info(rng.choice(typed), TP.FLOAT, [2]))
-            if rng.random() < 0.6:
-                m.ir_version = rng.choice([9, 8, 3])
+            degenerate_type(ty, rng.randrange(6))
         elif kind == "map_type":
             tys = all_types(m)
             if not tys:
@@ -1472,6 +1490,8 @@ def _run(ck) -> None:
     cases = []          # (proto, desc, res)
     for fn, c in load_corpus():
         cases.append((proto_from_b64(c["proto_b64"]), ["corpus:" + fn], None))
+    for p, desc in directed_cases():
+        cases.append((p, desc, None))
     for _ in range(n_cases):
         p, desc = gen_case(ck.rng)
         cases.append((p, desc, None))
